@@ -68,7 +68,9 @@ def problems(env, cfg, tier):
         out = {
             "C04.mask_is_exactly_the_legal_moves": o.action_mask == L2,
             "C04.cached_mask_is_the_mask": s2.action_mask == L2,
-            "C04.legal_move_not_treated_as_invalid": ~ok | ((last == was_last_node) & (ts.reward != INVALID_REWARD)),
+            # (a legal colouring that uses n distinct colours earns -n, the same number as the invalid-move penalty: the
+            #  reward alone cannot tell them apart, so "not treated as invalid" = ends only at the last node, objective reward)
+            "C04.legal_move_not_treated_as_invalid": ~ok | ((last == was_last_node) & (ts.reward == jnp.where(was_last_node, objective2, 0.0))),
             "C04.legal_move_is_executed": ~ok | (s2.colors[cur] == a),
             "C05.illegal_is_last": ok | last,
             "C05.illegal_reward_is_documented": ok | (ts.reward == INVALID_REWARD),
